@@ -103,3 +103,66 @@ def c11_pre(tier):
 def c07_pre(tier):
     gen_tld_expect()
     return []
+
+
+def c10_pre(tier):
+    """Validation (not proof) of the converter contract K2/K3 against the live libidn2, concrete:
+    K2: on all-ASCII input a successful conversion returns the input up to ASCII case;
+    K3: the U-label and A-label spellings of one TLD convert to the same string."""
+    import ctypes
+    res = []
+    try:
+        lib = ctypes.CDLL('libidn2.so.0')
+    except OSError as e:
+        return [('libidn2-available', False, str(e))]
+    lib.idn2_to_ascii_8z.argtypes = [ctypes.c_char_p, ctypes.POINTER(ctypes.c_void_p), ctypes.c_int]
+    lib.idn2_to_ascii_8z.restype = ctypes.c_int
+    libc = ctypes.CDLL('libc.so.6')
+    libc.free.argtypes = [ctypes.c_void_p]
+
+    def conv(b):
+        out = ctypes.c_void_p()
+        rc = lib.idn2_to_ascii_8z(b, ctypes.byref(out), 8)   # IDN2_NONTRANSITIONAL
+        s = None
+        if rc == 0 and out.value:
+            s = ctypes.string_at(out.value)
+        if out.value:
+            libc.free(out.value)
+        return rc, s
+    with open(os.path.join(core.REPO, 'data/raw.csv'), newline='', encoding='utf-8') as f:
+        raw = [r[0] for r in list(csv.reader(f))[1:] if r]
+    puny = [d for d, _ in csv_rows()]
+    bad3, n3 = [], 0
+    for u, a in zip(raw, puny):
+        if a.startswith('xn--'):
+            n3 += 1
+            ru, su = conv(u.encode('utf-8'))
+            ra, sa = conv(a.encode('ascii'))
+            if not (ru == 0 and ra == 0 and su == sa == a.encode('ascii')):
+                bad3.append((u, a, ru, ra))
+    res.append(('K3-ulabel-alabel-same-conversion', not bad3 and n3 > 0,
+                '%d IDN TLD rows: U-label and A-label both convert to the A-label%s' % (n3, '' if not bad3 else '; failures: %r' % bad3[:3])))
+    # K2 on ASCII domains: every ASCII TLD row as a two-label domain in three case patterns + domains of the data files
+    doms = set()
+    for a in puny:
+        if not a.startswith('xn--'):
+            doms.update(['mail.' + a, ('Mail.' + a).upper(), 'a-b.' + a.capitalize()])
+    for fn in ('pass-email-ascii.txt', 'fail-email-ascii.txt', 'email-result-check.txt', 'domain-length.txt', 'xn-dash-domains.txt'):
+        try:
+            for line in open(os.path.join(core.REPO, 'data', fn), 'rb'):
+                line = line.strip()
+                d = line.rsplit(b'@', 1)[-1]
+                if d and all(32 < c < 127 for c in d) and not d.startswith(b'['):
+                    doms.add(d.decode('ascii'))
+        except OSError:
+            pass
+    bad2, ok2 = [], 0
+    for d in sorted(doms):
+        rc, s = conv(d.encode('ascii'))
+        if rc == 0:
+            ok2 += 1
+            if s.lower() != d.encode('ascii').lower():
+                bad2.append((d, s))
+    res.append(('K2-ascii-conversion-is-identity-up-to-case', not bad2 and ok2 > 0,
+                '%d ASCII domains converted OK, all equal to the input up to ASCII case%s' % (ok2, '' if not bad2 else '; failures: %r' % bad2[:3])))
+    return res
